@@ -12,6 +12,7 @@ from pyasn1.codec.ber import eoo
 from pyasn1.compat.integer import to_bytes
 from pyasn1.compat.octets import (int2oct, oct2int, ints2octs, null,
                                   str2octs, isOctetsType)
+from pyasn1.type import base
 from pyasn1.type import char
 from pyasn1.type import tag
 from pyasn1.type import univ
@@ -557,6 +558,19 @@ class SequenceEncoder(AbstractItemEncoder):
             else:
                 yield value[idx]
 
+    @staticmethod
+    def _isDefaultValue(component, namedType):
+        # A bare Python value is compared the way the component type reads
+        # it: None (NULL), dotted text (OBJECT IDENTIFIER) or octets
+        # (character strings) never equal the DEFAULT value object as they are
+        default = namedType.asn1Object
+
+        if (isinstance(default, base.SimpleAsn1Type) and
+                not isinstance(component, base.Asn1Item)):
+            component = default.clone(component)
+
+        return component == default
+
     # TODO: handling three flavors of input is too much -- split over codecs
 
     def encodeValue(self, value, asn1Spec, encodeFun, **options):
@@ -642,7 +656,7 @@ class SequenceEncoder(AbstractItemEncoder):
                     raise error.PyAsn1Error('Component name "%s" not found in %r' % (
                         namedType.name, value))
 
-                if namedType.isDefaulted and component == namedType.asn1Object:
+                if namedType.isDefaulted and self._isDefaultValue(component, namedType):
                     if LOG:
                         LOG('not encoding DEFAULT component %r' % (namedType,))
                     continue
